@@ -1,3 +1,5 @@
 import Votca.Base.Util
 import Votca.Props.C18
 import Votca.Props.C13
+import Votca.Props.C20
+import Votca.Props.C20Findings
